@@ -95,6 +95,20 @@ func cmdAdmit(args []string) {
 			all = append(all, hooks...)
 		}
 	}
+	// the node's only neighbour is rejected / goes away: nothing of it may stay behind
+	for variant := 0; variant < 2; variant++ {
+		hooks, viol, inconcl := runAdmitLastPeerScenario(col, variant)
+		for _, v := range viol {
+			res.violate(v.Sig, v.What, v.Replay)
+		}
+		if inconcl != "" {
+			res.Inconclusive = append(res.Inconclusive, inconcl)
+		} else {
+			res.Evaluations++
+			distinct[fmt.Sprintf("last-peer-%d", variant)] = true
+			all = append(all, hooks...)
+		}
+	}
 	// the peer disappears while the node is between the two requests that end the establishment (needs a gate)
 	for k := 0; k < 18; k++ {
 		hooks, viol, inconcl := runAdmitGateScenario(col, k)
@@ -419,7 +433,25 @@ func runAdmitScenario(col *trace.Collector, rng *rand.Rand, idx int) (hooks []ve
 	}
 	if lastChange > h0 {
 		if _, ok := col.WaitFor(lastChange, 20*time.Second, evForNode(vn, "rebuild")); !ok {
-			return nil, viol, "no rebuild after the last connection change", desc, 0
+			// no rebuild in 20 s (the debounce is 100 ms): if the table still routes through a node that is no longer
+			// a connection, a route was left behind - a definite wrong value, not a timing matter
+			st := n.N.Status()
+			cn := map[string]bool{}
+			for _, c := range st.Connections {
+				cn[c.NodeID] = true
+			}
+			for dst, hop := range st.RoutingTable {
+				if !cn[hop] {
+					viol = append(viol, Violation{"C11:route-left-behind-without-rebuild",
+						fmt.Sprintf("20 s after the last connection change no table rebuild has happened and the table still routes %s via %s, which is not a connection (connections: %v)", dst, hop, st.Connections), desc})
+
+					break
+				}
+			}
+			if len(viol) > 0 {
+				return nil, viol, "no rebuild after the last connection change", desc, 0
+			}
+			// the table agrees with the connections although no rebuild was seen: go on, the final status is judged below
 		}
 	}
 	st := n.N.Status()
